@@ -9,16 +9,30 @@
 #define RV __CPROVER_return_value
 int g_last_mo;
 bool g_canceled, g_bad_order;
+bool g_canceled0;   /* canceled_ when the operation was entered */
+bool g_fresh;       /* a canceled() / canceled_ check has returned false since the last body was started on this thread.  (A later check of
+                     * the same call that returns true does not clear it: cancel() racing with a schedule() call already past its entry
+                     * check is the inherent check-to-start window, which the property cannot exclude -- DESIGN 9.6) */
 int g_invoked, g_dec, g_push, g_pop, g_pkg_made, g_enqueued;
 long g_credit; bool g_uncredited_handover;   /* C02 ledger, see below */
 bool g_skip_threshold, g_can_inline, g_recursive, g_overloaded, g_cost_heavy;   /* load / placement predicates: arbitrary */
 _Bool nondet_bool(void); long nondet_long(void);
-static void G_invoke_f(void) { g_invoked++; }
-static bool A_LOAD_canceled(int mo) { A_NOTE(mo); if (!MO_HAS_ACQUIRE(mo)) g_bad_order = 1; return g_canceled; }
+static size_t MIN_size(size_t a, size_t b) { return b < a ? b : a; }
+/* a task body is started on this thread.  The property: it may start only if the set was seen not cancelled after the previous body
+ * finished (that body, its exception, another thread or a cascading parent may have cancelled the set meanwhile) */
+static void G_body_starts(void) {
+  __CPROVER_assert(g_fresh, "a task body is started only after a canceled() check that returned false since the previous body on this thread finished");
+  g_fresh = 0; g_invoked++;
+  if (nondet_bool()) g_canceled = 1;     /* the body calls cancel(), throws, or another thread cancels while it runs */
+}
+static void G_invoke_f(void) { G_body_starts(); }
+static bool A_LOAD_canceled(int mo) {
+  if (nondet_bool()) g_canceled = 1;     /* rely: another thread / a parent may cancel at any time; never cleared */
+  A_NOTE(mo); if (!MO_HAS_ACQUIRE(mo)) g_bad_order = 1; if (!g_canceled) g_fresh = 1; return g_canceled; }
 static void A_STORE_canceled(bool v, int mo) { A_NOTE(mo); if (!MO_HAS_RELEASE(mo)) g_bad_order = 1; __CPROVER_assert(v, "canceled_ is only ever set, never cleared, by these operations"); g_canceled = v; }
 static bool A_XCHG_canceled(bool v, int mo) { A_NOTE(mo); bool old = g_canceled; if (!MO_HAS_RELEASE(mo)) g_bad_order = 1; g_canceled = v; return old; }
 #define GSMALL (g_invoked >= 0 && g_invoked < 1000 && g_dec >= 0 && g_dec < 1000 && g_push >= 0 && g_push < 1000 && g_pop >= 0 && g_pop < 1000 && g_pkg_made >= 0 && g_pkg_made < 1000 && g_enqueued >= 0 && g_enqueued < 1000)
-#define FR __CPROVER_assigns(g_invoked, g_dec, g_push, g_pop, g_pkg_made, g_enqueued, g_bad_order, g_last_mo, g_credit, g_uncredited_handover)
+#define FR __CPROVER_assigns(g_invoked, g_dec, g_push, g_pop, g_pkg_made, g_enqueued, g_bad_order, g_last_mo, g_credit, g_uncredited_handover, g_canceled, g_fresh)
 
 /* ---- the packaged task body (what eventually runs on a pool thread, or inline inside an untagged pool entry point) ---- */
 static bool G_not_current_parent(void) { return nondet_bool(); }
@@ -29,13 +43,15 @@ void PKG_body(void)
 __CPROVER_requires(GSMALL && !g_bad_order)
 /* cancelled: the body is not started; not cancelled: it runs exactly once; either way the outstanding count drops exactly once, after the
  * body, and the task-set stack is balanced */
-__CPROVER_ensures(!g_bad_order && g_invoked == __CPROVER_old(g_invoked) + (g_canceled ? 0 : 1) && g_dec == __CPROVER_old(g_dec) + 1 && g_push - __CPROVER_old(g_push) == g_pop - __CPROVER_old(g_pop))
-__CPROVER_assigns(g_invoked, g_dec, g_push, g_pop, g_bad_order, g_last_mo)
+__CPROVER_ensures(!g_bad_order && (__CPROVER_old(g_canceled) ==> (g_canceled && g_invoked == __CPROVER_old(g_invoked))) && g_invoked >= __CPROVER_old(g_invoked) && g_invoked <= __CPROVER_old(g_invoked) + 1 &&
+                  g_dec == __CPROVER_old(g_dec) + 1 && g_push - __CPROVER_old(g_push) == g_pop - __CPROVER_old(g_pop))
+__CPROVER_assigns(g_invoked, g_dec, g_push, g_pop, g_bad_order, g_last_mo, g_canceled, g_fresh)
 #include "PKG_body.body.inc"
 void PKG_body_noinc(void)
 __CPROVER_requires(GSMALL && !g_bad_order)
-__CPROVER_ensures(!g_bad_order && g_invoked == __CPROVER_old(g_invoked) + (g_canceled ? 0 : 1) && g_dec == __CPROVER_old(g_dec) + 1 && g_push - __CPROVER_old(g_push) == g_pop - __CPROVER_old(g_pop))
-__CPROVER_assigns(g_invoked, g_dec, g_push, g_pop, g_bad_order, g_last_mo)
+__CPROVER_ensures(!g_bad_order && (__CPROVER_old(g_canceled) ==> (g_canceled && g_invoked == __CPROVER_old(g_invoked))) && g_invoked >= __CPROVER_old(g_invoked) && g_invoked <= __CPROVER_old(g_invoked) + 1 &&
+                  g_dec == __CPROVER_old(g_dec) + 1 && g_push - __CPROVER_old(g_push) == g_pop - __CPROVER_old(g_pop))
+__CPROVER_assigns(g_invoked, g_dec, g_push, g_pop, g_bad_order, g_last_mo, g_canceled, g_fresh)
 #include "PKG_body_noinc.body.inc"
 
 /* pool entry points: tagged ones only enqueue (C47); untagged ones may run the packaged task at once */
@@ -56,10 +72,10 @@ __CPROVER_assigns(g_credit, g_pkg_made, g_last_mo)
 }
 static void G_make_package(void) { PKG_make(); }
 
-#define SPRE (GSMALL && g_invoked == 0 && !g_bad_order && g_dec == 0 && g_credit == 0 && !g_uncredited_handover)
+#define SPRE (GSMALL && g_canceled0 == g_canceled && g_invoked == 0 && !g_bad_order && g_dec == 0 && g_credit == 0 && !g_uncredited_handover)
 /* with the set cancelled before the call, no body is started -- neither inline on the caller nor through the packaged task */
 /* ... and (C02) every packaged task handed to the pool was credited to the outstanding count first, with nothing credited in excess */
-#define SPOST (!g_bad_order && (g_canceled ==> g_invoked == 0) && !g_uncredited_handover && g_credit == 0)
+#define SPOST (!g_bad_order && (g_canceled0 ==> (g_canceled && g_invoked == 0)) && !g_uncredited_handover && g_credit == 0)
 void TS_schedule(void) __CPROVER_requires(SPRE) __CPROVER_ensures(SPOST) FR
 #include "TS_schedule.body.inc"
 void CTS_schedule(bool skipRecheck) __CPROVER_requires(SPRE) __CPROVER_ensures(SPOST) FR
@@ -68,7 +84,7 @@ void CTS_schedulePlaced(bool skipRecheck) __CPROVER_requires(SPRE) __CPROVER_ens
 #include "CTS_schedulePlaced.body.inc"
 
 /* bulk: generated functors are run inline only in loop iterations that tested canceled() first */
-static void G_invokeInline(void) { g_invoked++; }
+static void G_invokeInline(void) { G_body_starts(); }
 static void G_bulk_enqueue(size_t n) { if (n < 1000000) G_handover((long)n); else g_uncredited_handover = 1; }
 void TSB_scheduleBulkImpl(size_t count) __CPROVER_requires(SPRE && count <= 100000) __CPROVER_ensures(SPOST) FR
 #include "TSB_scheduleBulkImpl.body.inc"
@@ -92,7 +108,7 @@ void TSB_cancel(void)
 __CPROVER_requires(g_children_cancelled == 0 && !g_child_order_bad && !g_bad_order && g_nchildren <= 1000000)
 /* after cancel() returns the set is cancelled and every child has been told, even if the set was already marked (e.g. by a throwing task) */
 __CPROVER_ensures(g_canceled && g_children_cancelled == g_nchildren && !g_child_order_bad && !g_bad_order)
-__CPROVER_assigns(g_canceled, g_children_cancelled, g_locked, g_child_order_bad, g_bad_order, g_last_mo)
+__CPROVER_assigns(g_canceled, g_children_cancelled, g_locked, g_child_order_bad, g_bad_order, g_last_mo, g_fresh)
 #include "TSB_cancel.body.inc"
 /* constructor: a set created under an already cancelled parent (ParentCascadeCancel::kOn) starts out cancelled */
 bool g_has_parent, g_parent_canceled, g_registered;
@@ -101,7 +117,7 @@ static void G_registerChild(void) { g_registered = 1; }
 void TSB_ctor_parent(void)
 __CPROVER_requires(!g_canceled && !g_bad_order && !g_registered)
 __CPROVER_ensures(!g_bad_order && (g_has_parent ==> g_registered) && ((g_has_parent && g_parent_canceled) ==> g_canceled))
-__CPROVER_assigns(g_canceled, g_registered, g_bad_order, g_last_mo)
+__CPROVER_assigns(g_canceled, g_registered, g_bad_order, g_last_mo, g_fresh)
 {
 #include "TSB_ctor_parent.slice.inc"
 }
@@ -109,7 +125,7 @@ __CPROVER_assigns(g_canceled, g_registered, g_bad_order, g_last_mo)
 bool TSB_testAndResetException(void)
 __CPROVER_requires(!g_bad_order)
 __CPROVER_ensures(RV == g_canceled && !g_bad_order)
-__CPROVER_assigns(g_bad_order, g_last_mo)
+__CPROVER_assigns(g_bad_order, g_last_mo, g_canceled, g_fresh)
 #include "TSB_testAndResetException.body.inc"
 
 /* ---- C02: wait() / tryWait() return "all done" only after an acquire load of the outstanding count that returned zero ---- */
@@ -135,7 +151,7 @@ void h_CTS_wait(void) { CTS_wait(); }
 void h_TS_wait(void) { TS_wait(); }
 void h_CTS_tryWait(void) { size_t m; CTS_tryWait(m); }
 void h_TS_tryWait(void) { size_t m; TS_tryWait(m); }
-static void mk(void) { g_credit = 0; g_uncredited_handover = 0; g_invoked = 0; g_dec = 0; g_push = 0; g_pop = 0; g_pkg_made = 0; g_enqueued = 0; g_bad_order = 0; g_canceled = nondet_bool(); }
+static void mk(void) { g_credit = 0; g_uncredited_handover = 0; g_invoked = 0; g_dec = 0; g_push = 0; g_pop = 0; g_pkg_made = 0; g_enqueued = 0; g_bad_order = 0; g_canceled = nondet_bool(); g_canceled0 = g_canceled; g_fresh = 0; }
 void h_PKG_body(void) { mk(); PKG_body(); }
 void h_PKG_body_noinc(void) { mk(); PKG_body_noinc(); }
 void h_TS_schedule(void) { mk(); TS_schedule(); }
